@@ -3,7 +3,7 @@
    hstate: per backend address reachability and the connection table entry (id, alive), the routing table tbl and
    the cluster's layout hown, the data.  Theorems hold for every command semantics, slot function and host list. *)
 From Coq Require Import List NArith.
-From Sam Require Import Model.Bytes Model.Resp Model.Cluster Model.Heal Proofs.HealProofs.
+From Sam Require Import Gen.Tables Model.Bytes Model.Resp Model.Cluster Model.Heal Proofs.HealProofs.
 Import ListNotations.
 Open Scope N_scope.
 
@@ -41,6 +41,10 @@ Theorem C07_reconnects : forall V s n, HI V s -> hconn V s n = None -> reach V s
              forall x id a, hconn V s x = Some (id, a) -> id <> nextid V s.
 Proof. exact reconnects. Qed.
 Print Assumptions C07_reconnects.
+
+(* a refresh request made while a round is in flight is kept (the trigger channel of upstream.go holds one entry) *)
+Theorem C07_trigger_kept : 1 <= slots_refresh_ch_cap.
+Proof. exact trigger_kept. Qed.
 
 (* routing: the first redirection triggers a refresh; once some configured host is reachable the table equals the
    layout, and with an up-to-date table no request is redirected *)
